@@ -73,6 +73,7 @@ def _chunk_worker(args: tuple) -> dict:
         "sim_time": 0.0,
         "steps": 0,
         "viol": {},  # class -> [first_index, count, message]
+        "viol_more": {},  # class -> a few further case indices (fallback when a replay does not carry over to a fresh interpreter)
         "harness": [],
         "digests": [],
         "samples": [],
@@ -115,6 +116,9 @@ def _chunk_worker(args: tuple) -> dict:
                 summ["viol"][cls] = [idx, 1, msg]
             else:
                 ent[1] += 1
+                more = summ["viol_more"].setdefault(cls, [])
+                if len(more) < 4:
+                    more.append(idx)
     summ["cpu"] = time.process_time() - t0
     faulthandler.cancel_dump_traceback_later()
     return summ
@@ -132,6 +136,7 @@ class ScenarioResult:
         self.sim_time = 0.0
         self.steps = 0
         self.viol: dict[str, list] = {}
+        self.viol_more: dict[str, list] = {}
         self.harness: list = []
         self.digests: list = []
         self.samples: list = []
@@ -149,14 +154,18 @@ class ScenarioResult:
         self.sim_time += s["sim_time"]
         self.steps += s["steps"]
         for cls, (idx, cnt, msg) in s["viol"].items():
+            more = self.viol_more.setdefault(cls, [])
             ent = self.viol.get(cls)
             if ent is None:
                 self.viol[cls] = [idx, cnt, msg]
             else:
+                more.append(max(idx, ent[0]))
                 if idx < ent[0]:
                     ent[0] = idx
                     ent[2] = msg
                 ent[1] += cnt
+            more.extend(s.get("viol_more", {}).get(cls, []))
+            self.viol_more[cls] = sorted(set(more))[:16]
         self.harness.extend(s["harness"])
         self.digests.extend(s["digests"])
         self.samples.extend(s["samples"])
